@@ -27,7 +27,7 @@ class ReplayDivergence(Exception):
 
 
 class MThread:
-    __slots__ = ('name', 'sem', 'state', 'cond', 'deadline', 'woke_ok', 'thread', 'what', 'nops', 'prio')
+    __slots__ = ('name', 'sem', 'state', 'cond', 'deadline', 'woke_ok', 'thread', 'what', 'nops', 'prio', 'lazy')
 
     def __init__(self, name, thread=None):
         self.name = name
@@ -40,6 +40,7 @@ class MThread:
         self.what = ''            # description of what it is blocked on
         self.nops = 0
         self.prio = 0
+        self.lazy = False
 
 
 # ---------------------------------------------------------------------------------------------
@@ -211,6 +212,10 @@ class Sched:
             normal = [c for c in cands if not c[1]]
             if normal:
                 cands = normal
+        else:
+            eager = [c for c in cands if not (c[1] and c[0].lazy)]
+            if eager:
+                cands = eager
         if not cands:
             self._begin_abort('deadlock')
             return self._abort_handover(me)
@@ -273,7 +278,7 @@ class Sched:
         me.nops += 1
         self._switch()
 
-    def block_until(self, cond, timeout=None, what=''):
+    def block_until(self, cond, timeout=None, what='', lazy=False):
         """Returns True when cond() holds, False when the (virtual) timeout expired."""
         me = self.me()
         if me is None:
@@ -290,7 +295,9 @@ class Sched:
         me.cond = cond
         me.what = what
         me.deadline = None if timeout is None else self.clock + timeout
+        me.lazy = lazy
         self._switch()
+        me.lazy = False
         me.what = ''
         return me.woke_ok
 
@@ -303,7 +310,10 @@ class Sched:
         return t
 
     def thread_start(self, th: _rt.Thread):
-        name = self.fresh_name(th.name)
+        base = th.name
+        if base.startswith('Thread-') and base[7:8].isdigit():
+            base = 'Thread-anon'        # default names carry a process-global counter: not replayable
+        name = self.fresh_name(base)
         mt = MThread(name, th)
         orig_run = th.run
         S = self
